@@ -460,7 +460,7 @@ class Summaries:
                 yield from arith_res(st, x * y, 0, U128_MAX, U128, 'Uint128 mul overflow')
             else:
                 raise Gap(k)
-        A('Uint128 ops', r'<Uint128 as std::ops::(Add|Sub|Mul)(<Uint128>|<&Uint128>)?>::(add|sub|mul)$', h_u128_binop)
+        A('Uint128 ops', r'<Uint128 as (?:std::ops::|core::ops::)?(Add|Sub|Mul)(<Uint128>|<&Uint128>)?>::(add|sub|mul)$', h_u128_binop)
 
         def h_u128_assign(st, fn, callee, args, dty):
             k = norm(callee)
@@ -530,7 +530,7 @@ class Summaries:
             # cosmwasm: 0 * d and x * 0 short-circuit to zero; floor(x*d/1e18)
             q, _ = I.idiv(st, x * d, E18)
             yield from arith_res(st, q, 0, U128_MAX, U128, 'Uint128*Decimal overflow')
-        A('Uint128*Decimal', r'<Uint128 as std::ops::Mul<Decimal>>::mul$|<Decimal as std::ops::Mul<Uint128>>::mul$', h_u128_mul_dec)
+        A('Uint128*Decimal', r'<Uint128 as (?:std::ops::|core::ops::)?Mul<Decimal>>::mul$|<Decimal as (?:std::ops::|core::ops::)?Mul<Uint128>>::mul$', h_u128_mul_dec)
 
         def h_from_ratio(st, fn, callee, args, dty):
             a = self.num(st, args[0])
@@ -554,14 +554,14 @@ class Summaries:
                 yield from arith_res(st, x + y, 0, U128_MAX, DEC, 'Decimal add overflow')
             else:
                 yield from arith_res(st, x - y, 0, U128_MAX, DEC, 'Decimal sub overflow')
-        A('Decimal add/sub', r'<Decimal as std::ops::(Add|Sub)>::(add|sub)$', h_dec_addsub)
+        A('Decimal add/sub', r'<Decimal as (?:std::ops::|core::ops::)?(Add|Sub)>::(add|sub)$', h_dec_addsub)
 
         def h_dec_mul(st, fn, callee, args, dty):
             x = self.num(st, args[0])
             y = self.num(st, args[1])
             q, _ = I.idiv(st, x * y, E18)
             yield from arith_res(st, q, 0, U128_MAX, DEC, 'Decimal mul overflow')
-        A('Decimal mul', r'<Decimal as std::ops::Mul>::mul$', h_dec_mul)
+        A('Decimal mul', r'<Decimal as (?:std::ops::|core::ops::)?Mul>::mul$', h_dec_mul)
 
         def h_dec_inv(st, fn, callee, args, dty):
             x = self.num(st, args[0])
@@ -572,6 +572,138 @@ class Summaries:
                     q, _ = I.idiv(st2, E18 * E18, x)
                     yield st2, some(DEC(q))
         A('Decimal::inv', r'<Decimal as Fraction<Uint128>>::inv$', h_dec_inv)
+
+        # ---- further cosmwasm-std 1.5 arithmetic (semantics read from cosmwasm-std-1.5.11/src/math/{uint128,decimal}.rs):
+        # not used by the pinned tree, summarised so that an edited tree that uses them is still encoded
+        def h_dec_div(st, fn, callee, args, dty):
+            a = self.num(st, args[0])
+            b = self.num(st, args[1])
+            for st2, z in I.truth(st, eqv(b, 0)):
+                if z:
+                    yield st2, Panic('Division failed - denominator must not be zero')
+                else:
+                    q, _ = I.idiv(st2, a * E18, b)
+                    yield from arith_res(st2, q, 0, U128_MAX, DEC, 'Division failed - multiplication overflow')
+        A('Decimal div', r'<(&)?Decimal as (?:std::ops::|core::ops::)?Div(<(&)?Decimal>)?>::div$', h_dec_div)
+
+        def h_floor_div(wrap, what):
+            def h(st, fn, callee, args, dty):
+                a = self.num(st, args[0])
+                b = self.num(st, args[1])
+                for st2, z in I.truth(st, eqv(b, 0)):
+                    if z:
+                        yield st2, Panic(what)
+                    else:
+                        yield st2, wrap(I.idiv(st2, a, b)[0])
+            return h
+        A('Decimal div Uint128', r'<Decimal as (?:std::ops::|core::ops::)?Div<Uint128>>::div$', h_floor_div(DEC, 'attempt to divide by zero'))
+        A('Uint128 div', r'<(&)?Uint128 as (?:std::ops::|core::ops::)?Div(<(&)?Uint128>)?>::div$', h_floor_div(U128, 'attempt to divide by zero'))
+
+        def h_u128_rem(st, fn, callee, args, dty):
+            a = self.num(st, args[0])
+            b = self.num(st, args[1])
+            for st2, z in I.truth(st, eqv(b, 0)):
+                if z:
+                    yield st2, Panic('attempt to calculate the remainder with a divisor of zero')
+                else:
+                    yield st2, U128(I.idiv(st2, a, b)[1])
+        A('Uint128 rem', r'<(&)?Uint128 as (?:std::ops::|core::ops::)?Rem(<(&)?Uint128>)?>::rem$', h_u128_rem)
+
+        def zite(c, a, b):
+            if isinstance(c, bool):
+                return a if c else b
+            return z3.If(c, a, b)
+
+        def wrap_of(callee):
+            return DEC if re.search(r'(^|::)Decimal::', norm(callee)) else U128
+        A('saturating_sub', r'(^|::)(Uint128|Decimal)::saturating_sub$',
+          lambda st, fn, callee, args, dty: iter([(st, wrap_of(callee)(zite(self.num(st, args[0]) >= self.num(st, args[1]), self.num(st, args[0]) - self.num(st, args[1]), 0)))]))
+        A('saturating_add', r'(^|::)(Uint128|Decimal)::saturating_add$',
+          lambda st, fn, callee, args, dty: iter([(st, wrap_of(callee)(zite(self.num(st, args[0]) + self.num(st, args[1]) <= U128_MAX, self.num(st, args[0]) + self.num(st, args[1]), U128_MAX)))]))
+        A('abs_diff', r'(^|::)(Uint128|Decimal)::abs_diff$',
+          lambda st, fn, callee, args, dty: iter([(st, wrap_of(callee)(zite(self.num(st, args[0]) >= self.num(st, args[1]), self.num(st, args[0]) - self.num(st, args[1]), self.num(st, args[1]) - self.num(st, args[0]))))]))
+
+        def h_mul_floor(ceil):
+            def h(st, fn, callee, args, dty):
+                x = self.num(st, args[0])
+                f = I.val(st, args[1])
+                if not (isinstance(f, Agg) and f.ty == 'Decimal'):
+                    raise Gap('mul_floor / mul_ceil with a non-Decimal fraction')
+                d = self.num(st, f)
+                q, r = I.idiv(st, x * d, E18)
+                if ceil:
+                    q = q + zite(eqv(r, 0), 0, 1)
+                yield from arith_res(st, q, 0, U128_MAX, U128, 'mul_floor / mul_ceil overflow')
+            return h
+        A('Uint128::mul_floor', r'(^|::)Uint128::mul_floor$', h_mul_floor(False))
+        A('Uint128::mul_ceil', r'(^|::)Uint128::mul_ceil$', h_mul_floor(True))
+        A('Decimal::to_uint_floor', r'(^|::)Decimal::to_uint_floor$', simple(lambda st, x: U128(I.idiv(st, self.num(st, x), E18)[0])))
+
+        def h_to_uint_ceil(st, fn, callee, args, dty):
+            q, r = I.idiv(st, self.num(st, args[0]), E18)
+            yield st, U128(q + zite(eqv(r, 0), 0, 1))
+        A('Decimal::to_uint_ceil', r'(^|::)Decimal::to_uint_ceil$', h_to_uint_ceil)
+        A('Decimal::floor', r'(^|::)Decimal::floor$', simple(lambda st, x: DEC(I.idiv(st, self.num(st, x), E18)[0] * E18)))
+        A('Decimal::atomics', r'(^|::)Decimal::atomics$|<Decimal as Fraction<Uint128>>::numerator$', simple(lambda st, x: U128(self.num(st, x))))
+        A('Decimal::denominator', r'<Decimal as Fraction<Uint128>>::denominator$', simple(lambda st, x: U128(E18)))
+        A('Decimal::raw', r'(^|::)Decimal::raw$|(^|::)Decimal::new$', simple(lambda st, x: DEC(self.num(st, x))))
+        A('Decimal::permille', r'(^|::)Decimal::permille$', simple(lambda st, x: DEC(x * 10 ** 15)))
+
+        def h_dec_checked(st, fn, callee, args, dty):
+            k = norm(callee).split('::')[-1]
+            x = self.num(st, args[0])
+            y = self.num(st, args[1])
+            if k == 'checked_div':
+                for st2, z in I.truth(st, eqv(y, 0)):
+                    if z:
+                        yield st2, err(Agg('CheckedFromRatioError', (), 0, 'DivideByZero'))
+                    else:
+                        q, _ = I.idiv(st2, x * E18, y)
+                        for st3, b in I.truth(st2, q > U128_MAX):
+                            yield st3, (err(Agg('CheckedFromRatioError', (), 1, 'Overflow')) if b else ok(DEC(q)))
+                return
+            if k == 'checked_mul':
+                r = I.idiv(st, x * y, E18)[0]
+            else:
+                r = x + y if k == 'checked_add' else x - y
+            bad = (r < 0) if k == 'checked_sub' else (r > U128_MAX)
+            for st2, b in I.truth(st, bad):
+                yield st2, (err(Agg('OverflowError', ())) if b else ok(DEC(r)))
+        A('Decimal checked', r'(^|::)Decimal::checked_(add|sub|mul|div)$', h_dec_checked)
+
+        def h_assign(kind):
+            def h(st, fn, callee, args, dty):
+                k = norm(callee).split('::')[-1]
+                r = args[0]
+                cur = I.val(st, r)
+                is_dec = isinstance(cur, Agg) and cur.ty == 'Decimal'
+                wrap = DEC if is_dec else U128
+                x = self.num(st, r)
+                y = self.num(st, args[1])
+                if k == 'mul_assign':
+                    v = I.idiv(st, x * y, E18)[0] if is_dec else x * y
+                    gen = arith_res(st, v, 0, U128_MAX, wrap, 'mul_assign overflow')
+                elif k == 'div_assign':
+                    def g():
+                        for st2, z in I.truth(st, eqv(y, 0)):
+                            if z:
+                                yield st2, Panic('attempt to divide by zero')
+                            elif is_dec and isinstance(I.val(st2, args[1]), Agg) and I.val(st2, args[1]).ty == 'Decimal':
+                                yield from arith_res(st2, I.idiv(st2, x * E18, y)[0], 0, U128_MAX, wrap, 'Division failed - multiplication overflow')
+                            else:
+                                yield st2, wrap(I.idiv(st2, x, y)[0])
+                    gen = g()
+                else:
+                    v = x + y if k == 'add_assign' else x - y
+                    gen = arith_res(st, v, 0, U128_MAX, wrap, 'Decimal %s overflow' % k)
+                for st2, res in gen:
+                    if not isinstance(res, Panic):
+                        I.store(st2, r, res)
+                        res = UNIT
+                    yield st2, res
+            return h
+        A('Decimal assign', r'<Decimal as (AddAssign|SubAssign|MulAssign|DivAssign)(<.*>)?>::(add_assign|sub_assign|mul_assign|div_assign)$', h_assign('d'))
+        A('Uint128 mul/div assign', r'<Uint128 as (MulAssign|DivAssign)(<.*>)?>::(mul_assign|div_assign)$', h_assign('u'))
 
         A('Uint128 ctor', r'^(cosmwasm_std::)?Uint128::new$|<Uint128 as From<u(8|16|32|64|128)>>::from$|'
                           r'<u(8|16|32|64|128) as Into<Uint128>>::into$', simple(lambda st, x: U128(x)))
@@ -1137,8 +1269,8 @@ class Summaries:
                     yield st2, Panic('U256 mul overflow')
                 else:
                     yield st2, Agg('Uint256', (Agg('U256', (q,)),))
-        self.add_contract('Uint256*Decimal256', r'<(cosmwasm_bignumber::|math::)?Uint256 as std::ops::Mul<(cosmwasm_bignumber::|math::)?Decimal256>>::mul$|'
-                                                r'<(cosmwasm_bignumber::|math::)?Decimal256 as std::ops::Mul<(cosmwasm_bignumber::|math::)?Uint256>>::mul$', c_u256_mul_dec)
+        self.add_contract('Uint256*Decimal256', r'<(cosmwasm_bignumber::|math::)?Uint256 as (?:std::ops::|core::ops::)?Mul<(cosmwasm_bignumber::|math::)?Decimal256>>::mul$|'
+                                                r'<(cosmwasm_bignumber::|math::)?Decimal256 as (?:std::ops::|core::ops::)?Mul<(cosmwasm_bignumber::|math::)?Uint256>>::mul$', c_u256_mul_dec)
 
         def c_new_withdraw_rate(st, fn, callee, args, dty):
             amount = self.num(st, args[0])
